@@ -1081,7 +1081,8 @@ theorem proto_params_as_modelled :
        "for attribute in &decl.attributes", "for param in &decl.params", "for statement in &decl.scope_block.0"] ∧
     RsslVerif.Gen.ProtoParams.exporterOnlyDeclare = ["let body = if only_declare"] ∧
     RsslVerif.Gen.ProtoParams.exporterRootArms =
-      ["ir::RootDefinition::FunctionDeclaration(id) => generate_function(*id, true, context)? .into_iter() .map(ast::RootDefinition::Function) .collect::<Vec<_>>(), ir::RootDefinition::Function(id) => generate_function(*id, false, context)? .into_iter() .map(ast::RootDefinition::Function) .collect::<Vec<_>>(),"] ∧
+      ["ir::RootDefinition::Enum(id) => module.enum_registry.get_enum_definition(*id).namespace, ir::RootDefinition::ConstantBuffer(id) => module.cbuffer_registry[id.0 as usize].namespace, ir::RootDefinition::GlobalVariable(id) => module.global_registry[id.0 as usize].namespace, ir::RootDefinition::FunctionDeclaration(id) | ir::RootDefinition::Function(id) =>",
+       "ir::RootDefinition::FunctionDeclaration(id) => generate_function(*id, true, context)? .into_iter() .map(ast::RootDefinition::Function) .collect::<Vec<_>>(), ir::RootDefinition::Function(id) => generate_function(*id, false, context)? .into_iter() .map(ast::RootDefinition::Function) .collect::<Vec<_>>(),"] ∧
     RsslVerif.Gen.ProtoParams.exporterDefault =
       ["let default_expr = if let Some(default_expr) = &param.default_expr",
        "Some(generate_expression(default_expr, context)?)", "param_type, declarator, location_annotations, default_expr,"] ∧
